@@ -142,7 +142,8 @@ def print_assumptions(pid, names):
     os.makedirs(CASES, exist_ok=True)
     path = os.path.join(CASES, f"assume_{pid}.v")
     with open(path, "w") as f:
-        f.write(f"Require Import RIOProps.{pid}.\n")
+        for mod in [pid] + list(props.PROPS.get(pid, {}).get("extra_props", [])):
+            f.write(f"Require Import RIOProps.{mod}.\n")
         for n in names:
             f.write(f'Redirect "{os.path.join(CASES, "assume_" + pid + "_" + n)}" Print Assumptions {n}.\n')
     rc, out, err = sh(["coqc", "-noglob", "-Q", "theories", "RIO", "-Q", "gen", "RIOGen", "-Q", "properties", "RIOProps", path], 600, cwd=COQ)
@@ -451,17 +452,20 @@ def main():
             problems.append({"kind": "translator", "what": f"gen_tables section {sec}", "detail": gen_res[sec]})
 
     # 2. proofs
-    prop_file = os.path.join(COQ, "properties", f"{pid}.v")
-    names = theorem_names(prop_file)
+    prop_mods = [pid] + list(cfg.get("extra_props", []))      # further statement files of the same property
+    names = []
     pins = json.load(open(os.path.join(HERE, "pins.json"))) if os.path.exists(os.path.join(HERE, "pins.json")) else {}
-    sha = hashlib.sha256(open(prop_file, "rb").read()).hexdigest()
-    if pins.get(pid) and pins[pid] != sha:
-        problems.append({"kind": "pin", "what": f"properties/{pid}.v", "detail": f"statement file hash {sha} differs from pinned {pins[pid]}"})
+    for mod in prop_mods:
+        prop_file = os.path.join(COQ, "properties", f"{mod}.v")
+        names += theorem_names(prop_file)
+        sha = hashlib.sha256(open(prop_file, "rb").read()).hexdigest()
+        if pins.get(mod) and pins[mod] != sha:
+            problems.append({"kind": "pin", "what": f"properties/{mod}.v", "detail": f"statement file hash {sha} differs from pinned {pins[mod]}"})
     forb = forbidden_scan()
     if forb:
         problems.append({"kind": "forbidden-token", "what": "coq development", "detail": "; ".join(forb[:10])})
     run_targets = [r.replace("RIO.", "theories/") + ".vo" for r in cfg["run_requires"]]
-    rc, mk_out = make_targets([f"properties/{pid}.vo"] + run_targets)
+    rc, mk_out = make_targets([f"properties/{m}.vo" for m in prop_mods] + run_targets)
     proofs_ok = rc == 0
     coqchk_report = {"ran": False}
     assumptions = {}
